@@ -1,6 +1,8 @@
 """Control-structure skeletons -> py / ts / js / rs source with a map name -> header line.
 
-A function: {"name": str, "container": "top"|"method"|"arrow"|"funcexpr", "body": forest}
+A function: {"name": str, "container": "top"|"method"|"arrow"|"funcexpr"|"curried"|"callback"|"defparam", "body": forest}
+            (curried / callback / defparam: ts/js forms in which the function sits behind an expression-bodied arrow function or in
+            a parameter default; rendered as plain functions in py/rs)
 A forest:   list of nodes;  a node: {"k": kind, "b": [forest, ...], ...}
 Kinds (b = branches):
   common   if (b=[then, elif.., else?], "else": bool)   for   while   match (b = cases)
@@ -38,7 +40,7 @@ def langs_for(funcs) -> list:
     out = []
     for lang in LANGS:
         if all(k in COMMON or k in ONLY[lang] for k in ks):
-            if lang == "rs" and any(f["container"] in ("arrow", "funcexpr") for f in funcs):
+            if lang == "rs" and any(f["container"] in ("arrow", "funcexpr", "curried", "callback", "defparam") for f in funcs):
                 pass  # rendered as plain fn in rust
             out.append(lang)
     return out
@@ -230,13 +232,26 @@ def render_ts(funcs, typed=True, terse=False):
             continue
         if c == "arrow":
             w.add(0, f"const {f['name']} = (a{ann}) => {{")
+        elif c == "curried":  # the block-bodied function is only reachable through an expression-bodied arrow function
+            w.add(0, f"const {f['name']} = (z{ann}) => (a{ann}) => {{")
+        elif c == "callback":  # ... or is an argument of the call that an expression-bodied arrow function returns
+            w.add(0, f"const {f['name']} = () => xs{w.fresh()}.map((a{ann}) => {{")
+        elif c == "defparam":  # ... or is the default value of a parameter
+            w.add(0, f"function {f['name']}(cb = function (a{ann}) {{")
         elif c == "funcexpr":
             w.add(0, f"const {f['name']} = function (a{ann}) {{")
         else:
             w.add(0, f"function {f['name']}(a{ann}) {{")
         headers[f["name"]] = len(w.lines)
         _ts_forest(w, f["body"], 1)
-        w.add(0, "};" if c in ("arrow", "funcexpr") else "}")
+        if c == "callback":
+            w.add(0, "});")
+        elif c == "defparam":
+            w.add(0, "}) {")
+            w.add(1, "return cb;")
+            w.add(0, "}")
+        else:
+            w.add(0, "};" if c in ("arrow", "funcexpr", "curried") else "}")
     if in_class:
         w.add(0, "}")
     return "\n".join(w.lines) + "\n", headers
